@@ -10,6 +10,7 @@ import ZeepVerif.Lemmas.ReadField
 import ZeepVerif.Lemmas.ReadFile
 import ZeepVerif.Lemmas.ReadDecide
 import ZeepVerif.Lemmas.ReadSpec
+import ZeepVerif.Lemmas.WriteDoc
 
 namespace ZeepVerif.Props.C02Read
 open ZeepVerif ZeepVerif.Model ZeepVerif.Spec ZeepVerif.Lemmas.ReadField ZeepVerif.Lemmas.ReadFile ZeepVerif.Lemmas.ReadDecide
@@ -59,6 +60,17 @@ theorem c02_file_read_general (xf : XFile) (h : coveredFileB xf = true) :
       .ok { fileDoc schema tns with
             nodes := (fileDoc schema tns).nodes ++ schema.kids.filterMap (nodeOfC (fileDoc schema tns) [schema]) } :=
   readXml_of_coveredFileB xf h
+
+/-- **the whole generator in closed form** on the covered fragment (derivation from an earlier base included):
+    `read_xml` followed by `write_xml` yields the fixed prelude, one module per target namespace holding the text
+    of exactly the nodes of that namespace in document order, and the fixed runtime -/
+theorem c02_generator_closed_form (xf : XFile) (h : ZeepVerif.Lemmas.ReadDecideX.coveredFileXB xf = true) :
+    ∃ schema tns, xf.tops = some [schema] ∧
+      let doc : Doc := { fileDoc schema tns with nodes := ZeepVerif.Lemmas.ReadExt.nodesFrom (fileDoc schema tns) [schema] schema.kids (fileDoc schema tns).nodes }
+      (readXml [xf] xf.name).bind writeDoc =
+        .ok ([Generated.Tables.headerText] ++ doc.targetNamespaces.flatMap (ZeepVerif.Lemmas.WriteDoc.moduleChunks doc) ++
+          (doc.nodes.filter (fun n => n.inNs.isNone)).flatMap writeNode ++ [Generated.Tables.helpersText]) :=
+  ZeepVerif.Lemmas.WriteDoc.generator_closed_form xf h
 
 /-- in-scope declarations that were collected once add nothing when they are met again on a descendant -/
 theorem c02_declarations_idempotent (d : Doc) (nss : List (Option String × String)) :
